@@ -69,6 +69,7 @@ class Ser:
         if isinstance(s, ast.Try) and not s.finalbody and not s.orelse and len(s.handlers) == 1:
             return "STry %s %s" % (self.stmts(s.body), self.stmts(s.handlers[0].body))
         if isinstance(s, ast.Pass): return "SPass"
+        if isinstance(s, ast.Assert): return "SAssert %s" % self.expr(s.test)
         return "SUnsupported %s" % q(type(s).__name__)
     def fundef(self, f, coqname):
         a = f.args
